@@ -98,9 +98,22 @@ fn collect_tokens(an: &mut TextAnalyzer, text: &str) -> Vec<Token> {
 
 fn test_stream(case: &StreamCase) -> TestResult {
     let model = case.spec.to_model()?;
-    let tokenizer = VaporettoTokenizer::new(model, &case.wsconst).map_err(|e| format!("VaporettoTokenizer::new: {e}"))?;
-    let mut an = TextAnalyzer::from(tokenizer);
     let p = Predictor::new(case.spec.to_model()?, false).map_err(|e| e.to_string())?;
+    // both constructors: from a model, and (every other case) from a serialised predictor followed
+    // by other bytes, which must come back as the rest
+    let from_image = case.texts.len() % 2 == 0;
+    let tokenizer = if from_image {
+        let mut image = p.serialize_to_vec().map_err(|e| format!("serialize_to_vec: {e}"))?;
+        let n = image.len();
+        image.extend_from_slice(b"rest\xfb");
+        let (t, rest) = unsafe { VaporettoTokenizer::deserialize_unchecked(&image, &case.wsconst) }
+            .map_err(|e| format!("VaporettoTokenizer::deserialize_unchecked on a serialised predictor: {e}"))?;
+        ensure_eq!(rest, &image[n..], "rest returned by VaporettoTokenizer::deserialize_unchecked");
+        t
+    } else {
+        VaporettoTokenizer::new(model, &case.wsconst).map_err(|e| format!("VaporettoTokenizer::new: {e}"))?
+    };
+    let mut an = TextAnalyzer::from(tokenizer);
     let fs = build_filters(&case.wsconst);
     let mut nontrivial = false;
     let mut info = Info::default();
@@ -158,7 +171,10 @@ fn test_stream(case: &StreamCase) -> TestResult {
             .class(toks.len() >= 2, ">=2-tokens");
     }
     info.nontrivial = nontrivial;
-    Ok(info.class(!case.wsconst.is_empty(), "wsconst").class(case.wsconst.contains('G'), "wsconst-G"))
+    Ok(info
+        .class(!case.wsconst.is_empty(), "wsconst")
+        .class(case.wsconst.contains('G'), "wsconst-G")
+        .class(from_image, "tokenizer-from-serialised-predictor"))
 }
 
 const TEXT_POOL: &[char] = &[
